@@ -1,7 +1,8 @@
 """C15 — loading a .yo listing puts exactly the listed bytes at the listed addresses."""
 
-THEOREM_MODULES = ["Hcl.Theorems.C15"]
-THEOREMS = {"Hcl.Theorems.C15": ["Yo.C15_line", "Yo.C15_image", "Yo.overlay_spec", "Yo.C15_invalid_utf8", "Yo.loadLine_spec", "Yo.hexLoop_spec", "Yo.C15_line_no_panic", "Yo.C15_load_no_panic", "Yo.hexLoop_no_panic", "Yo.C15_empty_refused"]}
+THEOREM_MODULES = ["Hcl.Theorems.C15", "Hcl.Tie.PinsYo"]
+THEOREMS = {"Hcl.Theorems.C15": ["Yo.C15_line", "Yo.C15_image", "Yo.overlay_spec", "Yo.C15_invalid_utf8", "Yo.loadLine_spec", "Yo.hexLoop_spec", "Yo.C15_line_no_panic", "Yo.C15_load_no_panic", "Yo.hexLoop_no_panic", "Yo.C15_empty_refused"],
+            "Hcl.Tie.PinsYo": ["Tie.PinsYo.pinLoadLine", "Tie.PinsYo.pinLoadFrom"]}
 
 RULE = ("S-YO: yas listings (addresses 0x000-0xfff incl. near the top, 0-10 bytes per line, either hex case, any order, "
         "overlapping lines, label/comment/blank lines, LF and CRLF, with and without final newline) and a malformed stream "
